@@ -456,6 +456,9 @@ func (t *State) PlayAndRepost(blockid []byte, needRepost bool, isRootTx bool) er
 	if blockErr != nil {
 		return blockErr
 	}
+	// only the genesis block holds the root transaction, which is exempt from verification
+	// (Play passes isRootTx for every block)
+	isRootTx = isRootTx && block.Height == 0
 	t.utxo.Mutex.Lock()
 	defer t.utxo.Mutex.Unlock()
 	succ := false
